@@ -129,8 +129,9 @@ def evaluate(case):
         ev.tags.append("found")
     if len(lists[("all", False)]) >= 2:
         ev.tags.append("matches>=2")
-    if found and "" in lists[("all", False)]:
-        ev.tags.append("empty-match")
-    ev.nontrivial = len(lists[("all", False)]) >= 2 or (found and "" in lists[("all", False)])
+    if any(t == "" for key_ in lists for t in lists[key_]):
+        # a match that covers no instruction (and has the address '') is no occurrence in any mode (F42)
+        ev.dev("empty-match-reported", modes=[list(k_) for k_ in lists if "" in lists[k_]])
+    ev.nontrivial = len(lists[("all", False)]) >= 2
     ev.sample = {"pattern": case["pattern"], "macros": case["macros"], "stream": stream_sample(L), "all_full": lists[("all", False)][:3], "all_addr": lists[("all", True)][:3], "bool": bools_first}
     return ev
